@@ -39,9 +39,28 @@ def seeds():
     return "\n".join(rows)
 
 
+def r5fixed():
+    k = json.load(open("/verif/known_findings.json"))["findings"]
+    start = [i for i, e in enumerate(k) if e.get("commit") == "6cfede2"][0]
+    rows = ["| commit | rule | what failed (reproduction) |", "|---|---|---|"]
+    for e in k[start:]:
+        if e["status"] == "fixed":
+            rows.append("| %s | %s | %s |" % (e["commit"], e["rule"], e["what"].replace("|", "\\|")))
+    return "\n".join(rows)
+
+
+def openfindings():
+    k = json.load(open("/verif/known_findings.json"))["findings"]
+    rows = ["| rule | construct | key | what fails, why not repaired |", "|---|---|---|---|"]
+    for e in k:
+        if e["status"] == "open":
+            rows.append("| %s | `%s` | %s | %s |" % (e["rule"], e["construct"], e["key"].replace("|", "\\|")[:60], e["what"].replace("|", "\\|")))
+    return "\n".join(rows)
+
+
 def main():
     s = open("/verif/DESIGN.md").read()
-    for name, fn in (("NUMBERS", numbers), ("SEEDS", seeds)):
+    for name, fn in (("NUMBERS", numbers), ("SEEDS", seeds), ("R5FIXED", r5fixed), ("OPEN", openfindings)):
         a, b = "<!-- AUTO:%s -->" % name, "<!-- /AUTO:%s -->" % name
         if a in s:
             s = re.sub(re.escape(a) + r".*?" + re.escape(b), lambda m_: a + "\n" + fn() + "\n" + b, s, flags=re.S)
